@@ -46,10 +46,14 @@ type Sched struct {
 	InstProc  map[int]*app.Process
 	parkedT   map[int]*parked
 	parkSet   map[string]bool
-	expectTP  map[int]bool // thread released into a timed wait: treat as running until its next TP
-	Hold      map[int]bool // instance -> the next back-off wait is held (1h) instead of elapsing
-	lastBack  map[int]int  // instance -> seconds of the last getBackoff() call
-	Free      bool         // free-running mode: nothing parks
+	expectTP  map[int]bool   // thread released into a timed wait: treat as running until its next TP
+	Hold      map[int]bool   // instance -> the next back-off wait is held (1h) instead of elapsing
+	lastBack  map[int]int    // instance -> seconds of the last getBackoff() call
+	stage     map[int]string // thread -> "stop" (inside stopProcess) | "spawnloop" (inside Run's spawn loop) | ""
+	lastTrue  map[int]bool   // thread -> first argument of its last TP was the boolean true
+	sdThread  map[int]bool   // thread -> inside ShutDownProject between shutdown_begin and shutdown_end
+	inFlight  int            // API calls begun and not returned (Run counts until run_spawned)
+	Free      bool           // free-running mode: nothing parks
 	selfG     int64
 	F         *fakecmd.Factory
 	Warnings  []string
@@ -62,12 +66,12 @@ var ParkLabels = []string{"spawn", "inst_begin", "dep_wait", "dep_done", "run_ch
 	"backoff_wait", "backoff_elapsed", "backoff_cancelled", "proc_end", "proc_ended", "skip", "run_returned",
 	"inst_done", "inst_exit", "stop_enter", "stop_running", "stop_pending", "stop_return", "start_checked",
 	"stop_checked", "restart_checked", "restart_stopped", "shutdown_call", "shutdown_begin", "shutdown_end",
-	"shutdown_unlocked", "ordered_go", "exit_trigger", "exit_code_set", "run_spawned", "run_return", "api_begin", "api_return"}
+	"shutdown_unlocked", "lookup_mid", "ordered_go", "exit_trigger", "exit_code_set", "run_spawned", "run_return", "api_begin", "api_return"}
 
 func New() *Sched {
 	s := &Sched{threads: map[int64]int{}, thInst: map[int]int{}, insts: map[*app.Process]int{},
 		InstName: map[int]string{}, InstProc: map[int]*app.Process{}, parkedT: map[int]*parked{},
-		parkSet: map[string]bool{}, expectTP: map[int]bool{}, Hold: map[int]bool{}, lastBack: map[int]int{}, MaxWaitMs: 4000}
+		parkSet: map[string]bool{}, expectTP: map[int]bool{}, Hold: map[int]bool{}, lastBack: map[int]int{}, stage: map[int]string{}, sdThread: map[int]bool{}, lastTrue: map[int]bool{}, MaxWaitMs: 4000}
 	for _, l := range ParkLabels {
 		s.parkSet[l] = true
 	}
@@ -124,6 +128,7 @@ func (s *Sched) Point(p *app.Process, _ *app.ProjectRunner, label string, args [
 			s.insts[p] = inst
 			s.InstName[inst] = p.VerifName()
 			s.InstProc[inst] = p
+			s.Events = append(s.Events, Event{Seq: len(s.Events), Th: th, Label: "new_inst", Inst: inst})
 		}
 	}
 	if label == "inst_begin" {
@@ -169,6 +174,39 @@ func (s *Sched) Point(p *app.Process, _ *app.ProjectRunner, label string, args [
 	if label == "backoff_cancelled" || label == "backoff_elapsed" {
 		delete(s.Hold, inst)
 	}
+	switch label {
+	case "stop_enter":
+		s.stage[th] = "stop"
+	case "stop_return":
+		if s.sdThread[th] {
+			s.stage[th] = "shutdown"
+		} else {
+			delete(s.stage, th)
+		}
+	case "shutdown_begin":
+		s.sdThread[th] = true
+		s.stage[th] = "shutdown"
+	case "shutdown_end":
+		delete(s.sdThread, th)
+		delete(s.stage, th)
+	case "api_begin_np":
+		if len(norm) > 1 && norm[1] == "run" {
+			s.stage[th] = "spawnloop"
+			s.inFlight++
+		}
+	case "run_spawned":
+		delete(s.stage, th)
+		s.inFlight--
+	case "api_begin":
+		s.inFlight++
+	case "api_return":
+		if len(norm) > 0 {
+			if id, ok := norm[0].(int); !ok || id != 0 {
+				s.inFlight--
+			}
+		}
+	}
+	s.lastTrue[th] = len(norm) > 0 && norm[0] == true
 	delete(s.expectTP, th)
 	ev := Event{Seq: len(s.Events), Th: th, Label: label, Inst: inst, Own: own, Args: norm}
 	s.Events = append(s.Events, ev)
@@ -219,6 +257,9 @@ func (s *Sched) Release(th int, timed bool) {
 	delete(s.parkedT, th)
 	if timed {
 		s.expectTP[th] = true
+	}
+	if p != nil {
+		s.Events = append(s.Events, Event{Seq: len(s.Events), Th: th, Label: "resume", Inst: p.inst})
 	}
 	s.mu.Unlock()
 	if p != nil {
@@ -357,4 +398,26 @@ func (s *Sched) GoNoPark(callID int, op string, name string, f func() string) {
 		res := f()
 		s.Point(nil, nil, "api_return", []interface{}{callID, res})
 	}()
+}
+
+func (s *Sched) ThreadStages() map[int]string {
+	s.mu.Lock()
+	defer s.mu.Unlock()
+	r := map[int]string{}
+	for k, v := range s.stage {
+		r[k] = v
+	}
+	return r
+}
+
+func (s *Sched) LastArgTrue(th int) bool {
+	s.mu.Lock()
+	defer s.mu.Unlock()
+	return s.lastTrue[th]
+}
+
+func (s *Sched) CallsInFlight() int {
+	s.mu.Lock()
+	defer s.mu.Unlock()
+	return s.inFlight
 }
